@@ -20,7 +20,11 @@
 //!
 //! Families: `wit` fixed sequences (finding witnesses, lyon's own tests); `exh` all sequences of length ≤ 3 over a 39-letter alphabet (19 trait commands +
 //! `arc`, two operand choices each); `exhm` the same after `M 1 2`; `blk` (thorough) all sequences of length 4 in blocks of 39; `rnd` random
-//! sequences up to length 60; `pat` short random sequences biased to curves/arcs/smooth/close.
+//! sequences up to length 60; `pat` short random sequences biased to curves/arcs/smooth/close;
+//! `svg_arc_e2e:32` arc-heavy sequences with NON-integer operands (radii around lyon's `S::EPSILON`,
+//! negative radii, any rotation, centre-form sweeps from 0 to beyond a turn) whose CASE line
+//! carries NO advice: the model computes the whole arc geometry itself
+//! (`Model/Path/SvgConcrete.lean`, the `Geo` instance the theorems of `Props/C15b.lean` are about).
 
 use lyon_path::builder::{Build, PathBuilder, SvgPathBuilder, WithSvg};
 use lyon_path::geom::{Arc, ArcFlags, SvgArc};
@@ -333,6 +337,22 @@ fn put_cmd(o: &mut Out, c: &Cmd, g: &Option<AGeo>) {
             _ => vector(0., 0.),
         };
         put_ageo(o, &g.clone().unwrap_or(AGeo::none(radii)));
+    }
+}
+
+/// the command with its operands only (family `svg_arc_e2e`): no lyon_geom advice
+fn put_cmd_e2e(o: &mut Out, c: &Cmd) {
+    match *c {
+        Cmd::A(a, p) => {
+            o.t("A").p(p).v(a.radii).f(a.rot).b(a.large).b(a.sweep);
+        }
+        Cmd::Ar(a, v) => {
+            o.t("a").v(v).v(a.radii).f(a.rot).b(a.large).b(a.sweep);
+        }
+        Cmd::R(center, radii, sweep, rot) => {
+            o.t("R").p(center).v(radii).f(sweep).f(rot);
+        }
+        _ => put_cmd(o, c, &None),
     }
 }
 
@@ -692,6 +712,13 @@ fn fmt_seq(cmds: &[Cmd]) -> String {
 
 /// Evaluate the property on one run of the real implementation.
 fn oracle(cmds: &[Cmd], r: &Run, orc: &mut Oracle) {
+    oracle_with(cmds, r, orc, false)
+}
+
+/// `rounded`: the operands are not lattice values (family `svg_arc_e2e`): `current + v` is rounded
+/// to f32 by the implementation from the first command on, so the reference (f64) compares up to
+/// the rounding allowance `Ref::tol` = 1e-4 * (1 + largest magnitude) throughout instead of exactly.
+fn oracle_with(cmds: &[Cmd], r: &Run, orc: &mut Oracle, rounded: bool) {
     // (1) protocol
     let all: Vec<Call> = r.per_cmd.iter().flatten().chain(r.build_calls.iter()).cloned().collect();
     let nest = well_nested(&all);
@@ -707,6 +734,7 @@ fn oracle(cmds: &[Cmd], r: &Run, orc: &mut Oracle) {
     orc.check(r.bad_attr.is_none(), "svg.attributes/zero-buffer", "generic", || r.bad_attr.clone().unwrap());
     // (2) SVG rules
     let mut rf = Ref::new();
+    rf.inexact = rounded;
     let mut deferred: Vec<(String, &'static str, String)> = Vec::new();
     for (i, c) in cmds.iter().enumerate() {
         let open_before = rf.open;
@@ -845,6 +873,40 @@ fn oracle(cmds: &[Cmd], r: &Run, orc: &mut Oracle) {
             }
             deferred.push((cl, class, d));
             rf.resync(got, r.curs[i], c.is_arc());
+        }
+        // (2b) arc commands: `current_position` is exactly the last point handed to the wrapped
+        // builder (the adapter copies it: `current_position = curve.to`, `move_to(arc_start)`,
+        // `line_to(to)`); Props/C15b.lean `svg_arc_to_semantics_real` / `svg_arc_semantics_real`.
+        // Class `arc-zero-sweep`: lyon_geom produces no piece for this arc at this position and a
+        // sub-path was open (the witness predicate of finding C15-arc-zero-sweep-stale-position:
+        // the connecting `line_to(arc_start)` does not update `current_position`).
+        if c.is_arc() {
+            let last = got.iter().rev().find_map(|g| match *g {
+                Call::B(p) | Call::L(p) | Call::Q(_, p) | Call::C(_, _, p) => Some(p),
+                Call::E(_) => None,
+            });
+            if let Some(p) = last {
+                let cur = r.curs[i];
+                let same = p.x == cur.x && p.y == cur.y;
+                if !same {
+                    let no_piece = r.geos[i].as_ref().map_or(false, |g| g.quads.is_empty());
+                    let class2 = if no_piece && open_before { "arc-zero-sweep" } else { "generic" };
+                    let d = format!(
+                        "command {} ({:?}): current_position {:?} but the last point handed to the builder is {:?} in {}",
+                        i,
+                        c,
+                        cur,
+                        p,
+                        fmt_seq(cmds)
+                    );
+                    if class2 == "generic" {
+                        orc.check(false, "svg.arc/current-point-sync", class2, || d);
+                        return;
+                    }
+                    deferred.push(("svg.arc/current-point-sync".to_string(), class2, d));
+                    rf.resync(got, r.curs[i], true);
+                }
+            }
         }
     }
     // (4) the same commands through the real storage
@@ -1026,6 +1088,160 @@ fn emit(ctx: &mut Ctx, family: &str, make: impl FnOnce(&mut Rng) -> (String, Vec
     });
 }
 
+/// lyon's `S::EPSILON` for f32: `SvgArc::is_straight_line` is `|r| <= 1e-4`
+const LYON_EPS: f32 = 1e-4;
+
+/// `arc_to` with a non-zero radius that lyon treats as zero
+fn has_tiny_radius_arc(cmds: &[Cmd]) -> bool {
+    cmds.iter().any(|c| match c {
+        Cmd::A(a, _) | Cmd::Ar(a, _) => {
+            (a.radii.x != 0.0 && a.radii.x.abs() <= LYON_EPS) || (a.radii.y != 0.0 && a.radii.y.abs() <= LYON_EPS)
+        }
+        _ => false,
+    })
+}
+
+/// which branches of `arc_to` / `arc` a run took, as tag words (evidence distribution)
+fn arc_branches(cmds: &[Cmd], r: &Run) -> String {
+    let mut w: Vec<&'static str> = Vec::new();
+    for (i, c) in cmds.iter().enumerate() {
+        if !c.is_arc() {
+            continue;
+        }
+        let calls = &r.per_cmd[i];
+        let nq = calls.iter().filter(|k| matches!(k, Call::Q(..))).count();
+        let has_b = calls.iter().any(|k| matches!(k, Call::B(..)));
+        let has_l = calls.iter().any(|k| matches!(k, Call::L(..)));
+        w.push(match (nq > 0, has_b, has_l) {
+            (true, true, _) => "arc:begin+pieces",
+            (true, false, true) => "arc:line+pieces",
+            (true, false, false) => "arc:far-start",
+            (false, true, _) => "arc:begin-only",
+            (false, false, true) => "arc:line-only",
+            (false, false, false) => "arc:no-call",
+        });
+        if let Cmd::R(_, _, sweep, _) = c {
+            if sweep.abs() > 2.0 * std::f32::consts::PI {
+                w.push("arc:beyond-turn");
+            }
+            if *sweep == 0.0 {
+                w.push("arc:zero-sweep");
+            }
+        }
+        if nq == 8 {
+            w.push("arc:8-pieces");
+        }
+    }
+    w.sort();
+    w.dedup();
+    w.iter().map(|x| format!(" {}", x)).collect()
+}
+
+/// family `svg_arc_e2e:32`: one sequence per case, CASE line without advice
+fn emit_e2e(ctx: &mut Ctx, make: impl FnOnce(&mut Rng) -> (String, Vec<Cmd>)) {
+    ctx.case("svg_arc_e2e:32", move |rng| {
+        let (kind, seq) = make(rng);
+        let mut args = Out::new();
+        for c in &seq {
+            put_cmd_e2e(&mut args, c);
+        }
+        let seqs = vec![seq.clone()];
+        // one guarded run for the branch words of the tag (which paths of arc / arc_to were taken)
+        let branches = vh::guarded(|| arc_branches(&seq, &run(&seq))).unwrap_or_else(|| " arc:panic".to_string());
+        let tag = format!("svg_arc_e2e {}{}{}", kind, features(&seqs), branches);
+        (args, tag, move || {
+            let r = run(&seq);
+            let mut o = Out::new();
+            let mut orc = Oracle::new();
+            put_run(&mut o, &r);
+            if has_tiny_radius_arc(&seq) {
+                // observation, outside the property's statement (C13's subject): SVG scales too small
+                // radii up, lyon draws a straight line for 0 < |r| <= S::EPSILON = 1e-4
+                orc.skip("arc_to with a radius in (0, 1e-4]: lyon's SvgArc::is_straight_line draws a straight line");
+            } else {
+                oracle_with(&seq, &r, &mut orc, true);
+            }
+            CaseOut { imp: o, orcl: orc.verdict }
+        })
+    });
+}
+
+fn e2e_coord(rng: &mut Rng, span: i64) -> f32 {
+    match rng.below(4) {
+        0 => rng.range(-span, span) as f32,
+        1 => rng.range(-4 * span, 4 * span) as f32 * 0.25,
+        _ => rng.uniform(-(span as f64), span as f64) as f32,
+    }
+}
+
+fn e2e_radius(rng: &mut Rng, span: i64, allow_tiny: bool) -> f32 {
+    let r = match rng.below(10) {
+        0 => rng.range(1, 2 * span) as f32,
+        1 if allow_tiny => *rng.pick(&[0.0f32, 1e-7, 1e-5, 5e-5, 1e-4, 1.0001e-4, 2e-4, 1e-3]),
+        2 => rng.log_uniform(-2.0, 3.0) as f32,
+        3 => span as f32 * 0.01,
+        _ => rng.uniform(0.05, 2.0 * span as f64) as f32,
+    };
+    if rng.chance(1, 6) {
+        -r
+    } else {
+        r
+    }
+}
+
+fn e2e_angle(rng: &mut Rng, wide: f64) -> f32 {
+    match rng.below(6) {
+        0 => 0.0,
+        1 => rng.range(-12, 12) as f32 * 0.25,
+        2 => rng.range(-8, 8) as f32 * std::f32::consts::FRAC_PI_4,
+        _ => rng.uniform(-wide, wide) as f32,
+    }
+}
+
+fn e2e_cmd(rng: &mut Rng, span: i64) -> Cmd {
+    let mut c = |rng: &mut Rng| e2e_coord(rng, span);
+    let arcp = |rng: &mut Rng| ArcP {
+        radii: vector(e2e_radius(rng, span, true), e2e_radius(rng, span, true)),
+        rot: e2e_angle(rng, 7.0),
+        large: rng.chance(1, 2),
+        sweep: rng.chance(1, 2),
+    };
+    match rng.below(20) {
+        0 | 1 => Cmd::M(point(c(rng), c(rng))),
+        2 => Cmd::Mr(vector(c(rng), c(rng))),
+        3 | 4 => Cmd::Z,
+        5 => Cmd::L(point(c(rng), c(rng))),
+        6 => Cmd::Lr(vector(c(rng), c(rng))),
+        7 => Cmd::Hr(c(rng)),
+        8 => Cmd::Q(point(c(rng), c(rng)), point(c(rng), c(rng))),
+        9 => Cmd::Tr(vector(c(rng), c(rng))),
+        10 => Cmd::Sr(vector(c(rng), c(rng)), vector(c(rng), c(rng))),
+        11 | 12 | 13 | 14 => {
+            let a = arcp(rng);
+            Cmd::A(a, point(c(rng), c(rng)))
+        }
+        15 | 16 | 17 => {
+            let a = arcp(rng);
+            Cmd::Ar(a, vector(c(rng), c(rng)))
+        }
+        _ => {
+            let sweep = match rng.below(8) {
+                0 => 0.0,
+                1 => std::f32::consts::PI * 2.0 * if rng.chance(1, 2) { -1.0 } else { 1.0 },
+                2 => rng.uniform(-20.0, 20.0) as f32,
+                3 => 1e-6,
+                _ => rng.uniform(-6.5, 6.5) as f32,
+            };
+            Cmd::R(
+                point(c(rng), c(rng)),
+                vector(e2e_radius(rng, span, false).abs().max(1e-3), e2e_radius(rng, span, false).abs().max(1e-3)),
+                sweep,
+                e2e_angle(rng, 7.0),
+            )
+        }
+    }
+}
+
 fn decode(mut k: u64, len: usize, alpha: &[Cmd]) -> Vec<Cmd> {
     let n = alpha.len() as u64;
     let mut v = vec![alpha[0]; len];
@@ -1077,8 +1293,28 @@ fn main() {
             vec![Cmd::M(point(100., 0.)), Cmd::A(ArcP { radii: vector(100., 100.), rot: 0.0, large: false, sweep: false }, point(100., 0.))],
         ),
     ];
+    // witness of finding C15-arc-zero-sweep-stale-position (Props/C15b.lean
+    // svg_arc_zero_sweep_stale_witness): zero-sweep `arc` inside a sub-path, current point 0.05 off
+    // the circle: `line_to(1, 0)` but `current_position` stays (1.05, 0); `l 1 0` is resolved wrongly
+    let stale: Vec<Cmd> = vec![Cmd::M(point(1.05, 0.)), Cmd::R(point(0., 0.), vector(1., 1.), 0.0, 0.0), Cmd::Lr(vector(1., 0.))];
+    let mut fixed = fixed;
+    fixed.push(("arc-zero-sweep-stale", stale.clone()));
+    let fixed_e2e: Vec<(&str, Vec<Cmd>)> = fixed.iter().filter(|(_, s)| s.iter().any(|c| c.is_arc())).cloned().collect();
     for (name, seq) in fixed {
         emit(&mut ctx, "wit", move |_| (name.to_string(), vec![seq]));
+    }
+    // svg_arc_e2e: the arc witnesses again, then arc-heavy sequences with non-integer operands; the
+    // model gets the operands only
+    for (name, seq) in fixed_e2e {
+        emit_e2e(&mut ctx, move |_| (format!("wit-{}", name), seq));
+    }
+    for _ in 0..ctx.n(4000, 60000) {
+        emit_e2e(&mut ctx, |rng| {
+            let len = rng.range(1, 10) as usize;
+            let span = *rng.pick(&[4i64, 16, 100]);
+            let s: Vec<Cmd> = (0..len).map(|_| e2e_cmd(rng, span)).collect();
+            (format!("len{}", bucket(len)), s)
+        });
     }
     // exh: every sequence of length 0..=3
     for len in 0..=3usize {
